@@ -822,9 +822,471 @@ def gen_C16(rng, n):
     return out
 
 
+
+# ---------------------------------------------------------------- strings
+def shex(t):
+    b = t.encode("utf-8") if isinstance(t, str) else bytes(t)
+    return b.hex() if b else "-"
+
+
+def parse_line(t, fam="parse"):
+    return "str.%s 5 %s" % (fam, shex(t))
+
+
+SPECIAL_VALUES = [10**38, 2**127, 2**128, 2**128 + 10**38, 2**128 + 2**127, 2 * 2**128, 2 * 2**128 + 10**38,
+                  10**39 - 1, 10**38 - 1, 2**127 - 1, 3 * 2**128, 2**129 + 10**38 + 5, 10**39, 10**40 + 7, 10**77]
+
+
+def lit_variants(rng, digits):
+    """place a decimal point / exponent into a digit string in several ways"""
+    res = [digits]
+    n = len(digits)
+    for k in {0, 1, 8, 16, 7, 9, n - 8, n - 16, n - 1, n - 18, n - 19, rng.randrange(0, n + 1)}:
+        if 0 <= k <= n:
+            res.append(digits[:n - k] + "." + digits[n - k:])
+            if k:
+                res.append(digits[:n - k] + "." + digits[n - k:] + "e%d" % k)
+                res.append(digits[:n - k] + "." + digits[n - k:] + "E+%d" % min(k, 99))
+    res.append(digits + "e-5")
+    res.append(digits + "e0")
+    res.append("0" * rng.randrange(1, 12) + digits)
+    res.append("0." + "0" * rng.randrange(0, 12) + digits[:18] if len(digits) else "0.")
+    return res
+
+
+def gen_C06(rng, n):
+    out = []
+    S = []
+    # known-finding witnesses and the repaired defects
+    S += ["1e001", "-.33E-001", "1e+100", "0e40", ".0e40", "0.0e40", "0e39", "0e38", "00e99",
+          "440282366920938463463374607431768211456", "0e5", "0E0", "00e1", "0.", "1e+", "1e-", "1e", "e5", ".e5", ".",
+          "+", "-", "+-1", "--1", "1..2", "1.2.3", "1e5e5", "1e5.", "1 ", " 1", "1_000", "0x10", "١٢٣", "1é", "é", "1.5é",
+          "", "0", "-0", "+0", "-0.00", "00", "000.000", ".5", "5.", "-.5", "+5.", "1e18", "1e38", "1e39", "17e37", "18e37",
+          "0.000000000000000001", "0.0000000000000000001", "0.0000000000000000001e1", "-1.23456789012345678901E+2",
+          ".1234567890123456789012345e25", "3402823669209384634633746074317.68211456", "3402823669209384634633746074317.68211457",
+          "340282366920938463463374.6074317682114560", "99999999999999999999999999999999999999", "1e-18", "1e-19", "12345678e-10"]
+    for v in SPECIAL_VALUES:
+        for delta in (-3, -1, 0, 1, 3):
+            S += lit_variants(rng, str(v + delta))
+    # digit counts 1..80, first digit 1/2/9
+    for nd in list(range(1, 46)) + [50, 64, 72, 80]:
+        for first in "129":
+            d = first + "".join(rng.choice("0123456789") for _ in range(nd - 1))
+            S += lit_variants(rng, d)[:6]
+    for t in S:
+        for sg in ("", "-", "+"):
+            out.append(parse_line(sg + t))
+    # malformed stream: every ASCII byte value at each position of an 8-byte window and of the tail
+    base = "1234567890123.45e7"
+    for pos in range(len(base)):
+        for b in list(range(0, 128, 1)):
+            m = base[:pos] + chr(b) + base[pos + 1:]
+            out.append(parse_line(m))
+    for pos in range(9):
+        for ch in ("é", "٣", " ", "𝟏"):
+            out.append(parse_line("12345678"[:pos] + ch + "12345678"[pos:]))
+    # all literals of length <= 3 over a small alphabet (exhaustive)
+    alpha = "+-.eE0159x"
+    def rec(prefix, depth):
+        out.append(parse_line(prefix))
+        if depth:
+            for c in alpha:
+                rec(prefix + c, depth - 1)
+    rec("", 3)
+    while len(out) < n:
+        k = rng.randrange(10)
+        sg = rng.choice(("", "", "-", "+"))
+        ni = rng.randrange(0, 46) if rng.randrange(4) else rng.randrange(0, 12)
+        nf = rng.randrange(0, 46) if rng.randrange(3) == 0 else rng.randrange(0, 20)
+        ip = "".join(rng.choice("0123456789") for _ in range(ni))
+        fp = "".join(rng.choice("0123456789") for _ in range(nf))
+        t = sg + ip + ("." + fp if (nf or rng.randrange(3) == 0) else "")
+        if k < 4:
+            e = rng.randrange(-45, 46)
+            t += rng.choice("eE") + rng.choice(("", "+" if e >= 0 else "", "")) + (str(e) if e >= 0 or True else "")
+        if k == 9:
+            # random mutation
+            if t:
+                pos = rng.randrange(len(t))
+                t = t[:pos] + rng.choice("+-.eE xX_01259é") + t[pos + rng.randrange(2):]
+        out.append(parse_line(t))
+    return out
+
+
+def gen_C07(rng, n):
+    out = []
+    for p in range(19):
+        for c in (0, 1, -1, 5, -5, 10**p, -(10**p), 10**p - 1, 10**p + 1, -(10**p) + 1, MAXC, -MAXC, 10**max(0, p - 1), -(10**max(0, p - 1)),
+                  15, -15, 10**38, 123456789012345678901234567890123456789 % (MAXC + 1)):
+            out.append("str.tostring 5 %s %d" % (hx(clamp(c)), p))
+            out.append("str.roundtrip 5 %s %d" % (hx(clamp(c)), p))
+    while len(out) < n:
+        p = scale(rng)
+        k = rng.randrange(4)
+        if k == 0 and p > 0:
+            c = rng.choice((1, -1)) * rng.randrange(0, 10**p)      # values in (-1, 1), leading zeros
+        elif k == 1 and p > 0:
+            c = rng.choice((1, -1)) * rng.randrange(0, 10 ** rng.randrange(1, p + 1))
+        else:
+            c = coef(rng)
+        out.append("str.%s 5 %s %d" % (rng.choice(("tostring", "roundtrip")), hx(c), p))
+    return out
+
+
+def gen_C09(rng, n):
+    out = []
+    for p in range(19):
+        for c in (0, 1, -1, 10**p, 2**p, 5**p, -(5**p), 2**126, 5**28 % (MAXC + 1), 5**54 % 1, MAXC, -MAXC, 700, 2**64 + 1, 3 * 2**100, 5**27 * 2**60):
+            c = clamp(c)
+            out.append("fl.ratio 5 %s %d" % (hx(c), p))
+    # 2^a 5^b r
+    for a in (0, 1, 17, 18, 19, 63, 64, 100, 126):
+        for b in (0, 1, 17, 18, 19, 27, 28):
+            for r in (1, 3, 7, 2**40 + 1):
+                c = 2**a * 5**b * r
+                if c <= MAXC:
+                    for p in (1, 9, 18):
+                        out.append("fl.ratio 5 %s %d" % (hx(c), p))
+                        out.append("fl.ratio 5 %s %d" % (hx(-c), p))
+    # equal values across representations hash alike
+    for k in range(19):
+        for j in range(19 - k):
+            for v in (0, 1, -1, 7, 700, 5**20, 10**18 + 1, MAXC // 10**18, 25, 5**28 // 10**3):
+                if abs(v * 10 ** (k + j)) <= MAXC:
+                    out.append("fl.hasheq 5 %s %d %s %d" % (hx(v * 10**k), k, hx(v * 10 ** (k + j)), k + j))
+    while len(out) < n:
+        k = rng.randrange(4)
+        p = scale(rng)
+        if k == 0:
+            c = coef(rng)
+        elif k == 1:
+            c = clamp(2 ** rng.randrange(0, 127) * 5 ** rng.randrange(0, 20) * rng.choice((1, 3, 7, 11)))
+        else:
+            c = clamp(rng.getrandbits(rng.randrange(1, 127)) * 10 ** rng.randrange(0, 19))
+        if k == 3:
+            j = rng.randrange(0, 19 - p) if p < 18 else 0
+            if abs(c * 10**j) <= MAXC:
+                out.append("fl.hasheq 5 %s %d %s %d" % (hx(c), p, hx(c * 10**j), p + j))
+                continue
+        out.append("fl.ratio 5 %s %d" % (hx(rng.choice((1, -1)) * c), p))
+    return out
+
+
+from fmt_flags import COMBOS  # noqa: E402
+ALIGN_CODE = {"": 0, "<": 1, "^": 2, ">": 3}
+
+
+def fmt_line(rng, idx, m, w, p, c, nfd, as_int=False):
+    fill, align, plus, alt, zero = COMBOS[idx]
+    fillhex = (fill if fill else " ").encode("utf-8").hex()
+    return "fmt.%d%s %d %s %s %s %d %s %d %d %d %d" % (
+        idx, ".i" if as_int else "", m, "-" if w is None else str(w), "-" if p is None else str(p), hx(c), nfd,
+        fillhex, ALIGN_CODE[align], 1 if plus else 0, 1 if alt else 0, 1 if zero else 0)
+
+
+def gen_C11(rng, n):
+    out = []
+    vals = [(0, 0), (0, 3), (5, 0), (-5, 0), (-42, 0), (12345, 3), (-12345, 3), (-12341, 3), (999, 2), (-999, 2), (9995, 3), (-9995, 3),
+            (5, 1), (-5, 1), (15, 1), (25, 1), (-25, 1), (1, 18), (-1, 18), (MAXC, 18), (-MAXC, 0), (MAXC, 0), (49, 2), (-49, 2), (51, 2),
+            (10**18, 18), (-4, 1), (-6, 1), (4, 1), (6, 1), (-420, 1)]
+    for idx in range(len(COMBOS)):
+        for (c, f) in vals:
+            m = rng.choice(MODES)
+            w = rng.choice((None, 0, 1, 5, 10, 30, 60))
+            p = rng.choice((None, 0, 1, 2, 17, 18, 19, 40))
+            out.append(fmt_line(rng, idx, m, w, p, c, f))
+        for c in (0, 7, -7, 123456, -123456, MAXC, -MAXC):
+            out.append(fmt_line(rng, idx, 5, rng.choice((None, 0, 3, 9, 45, 60)), None, c, 0, as_int=True))
+    # every precision 0..40 x every mode, plain flags
+    for p in list(range(41)) + [None]:
+        for m in MODES:
+            for (c, f) in ((-12341, 3), (12345, 3), (-5, 1), (999999, 6), (-42, 0), (-1, 18), (5 * 10**17, 18), (-15, 1)):
+                out.append(fmt_line(rng, 0, m, None, p, c, f))
+    for w in range(61):
+        out.append(fmt_line(rng, rng.randrange(len(COMBOS)), 5, w, rng.choice((None, 2)), rng.choice((-12345, 12345, 0)), 2))
+    while len(out) < n:
+        idx = rng.randrange(len(COMBOS))
+        w = rng.choice((None, rng.randrange(61)))
+        p = rng.choice((None, rng.randrange(41), rng.randrange(20)))
+        f = scale(rng)
+        k = rng.randrange(4)
+        if k == 0 and f > 0:
+            s = rng.randrange(1, f + 1)
+            c = rng.choice((1, -1)) * (rng.randrange(0, 10**6) * 10**s + rng.choice(rem_classes(10**s)))
+        elif k == 1:
+            c = rng.choice((1, -1)) * (10 ** rng.randrange(1, 30) - rng.randrange(1, 60))     # carries: 9.99 -> 10.0
+        else:
+            c = coef(rng)
+        out.append(fmt_line(rng, idx, rng.choice(MODES), w, p, clamp(c), f))
+    return out
+
+
+# ---------------------------------------------------------------- floats
+from fractions import Fraction  # noqa: E402
+
+
+def float_parts(bits, is64):
+    fb, eb, bias = (52, 11, 1023) if is64 else (23, 8, 127)
+    s = bits >> (fb + eb)
+    be = (bits >> fb) & ((1 << eb) - 1)
+    fr = bits & ((1 << fb) - 1)
+    if be == 0:
+        m, e = fr, 1 - bias - fb
+    else:
+        m, e = fr | (1 << fb), be - bias - fb
+    return s, m, e
+
+
+def gen_C12(rng, n):
+    out = []
+    def both(c, p):
+        c = clamp(c)
+        out.append("fl.f64 5 %s %d" % (hx(c), p))
+        out.append("fl.f32 5 %s %d" % (hx(c), p))
+    for p in range(19):
+        for c in (0, 1, -1, 10**p, 10**p - 1, 10**p + 1, 5, -5, MAXC, -MAXC, 2**53 + 1, 2**24 + 1, (2**53 + 1) * 10**p, (2**24 + 1) * 10**p,
+                  99999999999999999, 999999999, 2**127 - 2**70, 16777217 * 10**p + 1, 16777219 * 10**p - 1):
+            both(c, p)
+    both(99999999999999999, 17); both(900719925474099175, 2); both(99999999, 8)
+    both(16777217000000000000000001, 18); both(16777218999999999999999999, 18); both(1000000059604644776, 18)
+    # midpoints between adjacent floats, approached from below / at / above
+    for is64 in (True, False):
+        fb = 52 if is64 else 23
+        for _ in range(60):
+            e = rng.randrange(-70, 40)
+            m = (1 << fb) | rng.getrandbits(fb)
+            if rng.randrange(4) == 0:
+                m = (1 << (fb + 1)) - 1      # all ones: rounding carries into the exponent
+            mid = Fraction(2 * m + 1) * Fraction(2) ** (e - fb - 1)
+            for p in (rng.randrange(1, 19), 18):
+                c0 = int(mid * 10**p)
+                for d in (-1, 0, 1, 2):
+                    if 0 < c0 + d <= MAXC:
+                        out.append("fl.%s 5 %s %d" % ("f64" if is64 else "f32", hx(rng.choice((1, -1)) * (c0 + d)), p))
+        # exact ties: midpoint representable with <= 18 fractional digits
+        for k in range(1, 19):
+            for _ in range(6):
+                odd = rng.getrandbits(fb + 1) | (1 << (fb + 1)) | 1       # fb+2 bits, odd -> exactly between two floats
+                c = odd * 5**k
+                if c <= MAXC:
+                    out.append("fl.%s 5 %s %d" % ("f64" if is64 else "f32", hx(c), k))
+                    out.append("fl.%s 5 %s %d" % ("f64" if is64 else "f32", hx(-c), k))
+    while len(out) < n:
+        p = scale(rng)
+        k = rng.randrange(4)
+        c = coef(rng) if k else rng.getrandbits(rng.randrange(1, 127))
+        both(rng.choice((1, -1)) * c, p)
+    return out
+
+
+def gen_C13(rng, n):
+    out = []
+    def f64(b):
+        out.append("fl.fromf64 5 %x" % b)
+    def f32(b):
+        out.append("fl.fromf32 5 %x" % b)
+    import struct
+    def bits64(x):
+        return struct.unpack("<Q", struct.pack("<d", x))[0]
+    def bits32(x):
+        return struct.unpack("<I", struct.pack("<f", x))[0]
+    for x in (0.0, -0.0, 1.0, -1.0, 0.5, 1.5, 2.0**-19, -(2.0**-19), 1 + 5 * 2.0**-19, 3 * 2.0**-19, 6e-19, 7e-19, 8e-19, 8.6e-19, 5e-19, 4.9e-19, 1e-19, 1e-18,
+              2.0**127, -(2.0**127), 2.0**126, 2.0**127 * (1 - 2.0**-53), 1e38, 1.7e38, 1.8e38, 1e39, 2.0**128, 1e308, 5e-324, 2.2250738585072014e-308,
+              0.1, 0.2, 0.3, 17.5, 123456789.123456789, 9007199254740993.0, 1e22, 2.0**-60, 2.0**-59, 2.0**-61, 2.0**-126, 2.0**-127):
+        f64(bits64(x)); f64(bits64(-x))
+        try:
+            f32(bits32(x)); f32(bits32(-x))
+        except OverflowError:
+            pass
+    for b in (0x7ff0000000000000, 0xfff0000000000000, 0x7ff8000000000000, 0x7ff0000000000001, 0xffffffffffffffff, 0x7fefffffffffffff, 1, 0x000fffffffffffff, 0x0010000000000000):
+        f64(b)
+    for b in (0x7f800000, 0xff800000, 0x7fc00000, 0x7f800001, 0xffffffff, 0x7f7fffff, 1, 0x007fffff, 0x00800000):
+        f32(b)
+    # every exponent x structured mantissas
+    for be in range(0, 2047, 1):
+        for fr in (0, 1, (1 << 52) - 1, 1 << 51, rng.getrandbits(52)):
+            f64((rng.randrange(2) << 63) | (be << 52) | fr)
+    for be in range(0, 256):
+        for fr in (0, 1, (1 << 23) - 1, 1 << 22, rng.getrandbits(23), rng.getrandbits(23)):
+            f32((rng.randrange(2) << 31) | (be << 23) | fr)
+    # dyadic ties k / 2^19, and +- 1 ulp
+    for _ in range(300):
+        k = rng.randrange(1, 2**30) | 1
+        x = k / 2.0**19
+        b = bits64(x)
+        for d in (-1, 0, 1):
+            f64(b + d)
+        f32(bits32(rng.randrange(1, 2**22) / 2.0**19))
+    while len(out) < n:
+        k = rng.randrange(6)
+        if k == 0:
+            f64(rng.getrandbits(64))
+        elif k == 1:
+            f32(rng.getrandbits(32))
+        elif k == 2:
+            f64((rng.randrange(2) << 63) | (rng.randrange(1023 - 70, 1023 + 130) << 52) | rng.getrandbits(52))
+        elif k == 3:
+            f32((rng.randrange(2) << 31) | (rng.randrange(127 - 70, 255) << 23) | rng.getrandbits(23))
+        elif k == 4:
+            x = rng.randrange(1, 10**rng.randrange(1, 19)) / 10.0**rng.randrange(0, 25)
+            f64(bits64(x)); f32(bits32(x))
+        else:
+            x = (rng.randrange(1, 2**40) | 1) / 2.0**rng.randrange(1, 30)
+            f64(bits64(x))
+    return out
+
+
+# ---------------------------------------------------------------- C17
+FRM_DD = ("add", "sub", "mul", "div", "rem", "cadd", "csub", "cmul", "cdiv", "crem", "divr", "mulr", "quant", "eq", "lt")
+FRM_DI = ("add", "sub", "mul", "div", "rem", "cadd", "csub", "cmul", "cdiv", "crem", "divr", "quant", "eq", "lt")
+
+
+def gen_C17(rng, n):
+    out = []
+    def one(shape, op, ty, m):
+        nn = rng.randrange(19)
+        if shape == "dd":
+            out.append("frm.dd_%s %d %s %d %s %d %d" % (op, m, hx(coef(rng)), scale(rng), hx(coef(rng)), scale(rng), nn))
+        elif shape == "di":
+            out.append("frm.di_%s.%s %d %s %d %s %d" % (op, ty, m, hx(coef(rng)), scale(rng), hx(intval(rng, ty)), nn))
+        elif shape == "id":
+            out.append("frm.id_%s.%s %d %s %s %d %d" % (op, ty, m, hx(intval(rng, ty)), hx(coef(rng)), scale(rng), nn))
+        else:
+            out.append("frm.ii_%s.%s %d %s %s %d" % (op, ty, m, hx(intval(rng, ty)), hx(intval(rng, ty)), nn))
+    # every implementation at least a few times (the finite set of trait impls)
+    for rep in range(3):
+        for op in FRM_DD:
+            one("dd", op, "", rng.choice(MODES))
+        for ty in TYNAMES:
+            for op in FRM_DI:
+                one("di", op, ty, rng.choice(MODES))
+                one("id", op, ty, rng.choice(MODES))
+            for op in ("divr", "quant"):
+                one("ii", op, ty, rng.choice(MODES))
+    # boundary material: integer one, overflowing scalings, i128::MIN for comparisons
+    for ty in TYNAMES:
+        lo, hi = ITYPES[ty]
+        for i in (1, 0, hi, lo, -1 if lo < 0 else 2):
+            for c, p in ((MAXC, 0), (-MAXC, 0), (10**21, 0), (MAXC // 7, 12), (15, 1), (10**5, 5), (0, 3), (MAXC, 18)):
+                for op in ("div", "mul", "add", "sub", "rem", "cdiv", "cmul", "cadd", "crem", "eq", "lt", "quant"):
+                    if ty == "i128" and i == lo and op not in ("eq", "lt"):
+                        continue
+                    out.append("frm.di_%s.%s 5 %s %d %s 0" % (op, ty, hx(c), p, hx(i)))
+                    out.append("frm.id_%s.%s 5 %s %s %d 0" % (op, ty, hx(i), hx(c), p))
+    # K1: integer forms of div_rounded with n > 18 disagree with the Decimal form
+    out.append("frm.di_divr.i32 5 1 0 3 19")
+    while len(out) < n:
+        shape = rng.choice(("dd", "di", "di", "id", "id", "ii"))
+        ty = rng.choice(TYNAMES)
+        op = rng.choice(FRM_DD if shape == "dd" else (("divr", "quant") if shape == "ii" else FRM_DI))
+        one(shape, op, ty, rng.choice(MODES))
+    return out
+
+
+# ---------------------------------------------------------------- C19
+PROBES = [(25, 1), (-25, 1), (23, 1), (-23, 1), (3, 1), (-3, 1), (15, 1), (-15, 1), (5, 1), (-5, 1), (27, 1), (-27, 1), (55, 1), (-55, 1), (1, 18), (-1, 18)]
+
+
+def thr_event(rng, t):
+    k = rng.randrange(12)
+    if k < 3:
+        return "S%d=%d" % (t, rng.randrange(8))
+    if k < 5:
+        return "G%d" % t
+    c, p = rng.choice(PROBES)
+    if k < 8:
+        return "R%d:%s:%d:%d" % (t, hx(c), p, 0)
+    if k == 8:
+        return "D%d:%s:%d:%s:%d:%d" % (t, hx(rng.choice((1, -1, 2, -2, 16, -16, 7))), rng.randrange(3), hx(rng.choice((3, -3, 6, 4))), 0, rng.randrange(3))
+    if k == 9:
+        # wide product: exercises the 256-bit multiplication path
+        return "M%d:%s:%d:%s:%d" % (t, hx(rng.choice((1, -1)) * (10**20 + 1)), 10, hx(10**20 + 3), 10)
+    if k == 10:
+        return rng.choice(("V%d:%s:%d:%s:%d" % (t, hx(rng.choice((1, -1, 2, -2, 10**21, -(10**21)))), 0, hx(rng.choice((3, 7, 6))), 0),
+                           "U%d:%s:%d:%s:%d:%d" % (t, hx(rng.choice((15, -15, 25, -25, 35))), 1, hx(rng.choice((5, 15))), 1, 1)))
+    return "F%d:%s:%d:%d" % (t, hx(c), p, 0)
+
+
+def gen_C19(rng, n):
+    out = []
+    # atlas: two threads, every ordered pair of modes, cross-thread set between a set and its use
+    for m1 in range(8):
+        for m2 in range(8):
+            out.append("thr.forced 5 S0=%d S1=%d R0:19:1:0 R1:19:1:0 G0 G1 R0:-19:1:0 R1:-f:1:0 M0:%s:10:%s:10 M1:-%s:10:%s:10"
+                       % (m1, m2, hx(10**20 + 1), hx(10**20 + 3), hx(10**20 + 1), hx(10**20 + 3)))
+    for m1 in range(8):
+        out.append("thr.forced 5 G0 G1 S0=%d G1 G0 S1=5 G0 R0:19:1:0 S2=5 R0:-19:1:0 G2 G0 F0:-f:1:0 D0:10:1:3:0:0 V0:1:0:3:0" % m1)
+        out.append("thr.free 5 S0=%d R0:19:1:0 R1:19:1:0 G1 G0 R1:-19:1:0 R0:-19:1:0 G2 R2:f:1:0" % m1)
+    while len(out) < n:
+        nt = rng.randrange(1, 5)
+        ln = rng.randrange(3, 24)
+        evs = [thr_event(rng, rng.randrange(nt)) for _ in range(ln)]
+        out.append("thr.%s 5 %s" % ("forced" if rng.randrange(5) else "free", " ".join(evs)))
+    return out
+
+
+def gen_C20(rng, n):
+    per = max(200, n // 9)
+    out = []
+    for g in (gen_C01, gen_C02, gen_C03, gen_C04, gen_C05, gen_C10, gen_C15, gen_C16, gen_C08):
+        ls = g(rng, per)
+        if len(ls) > per:
+            # keep the atlas part proportionally: deterministic thinning
+            step = len(ls) / per
+            ls = [ls[int(i * step)] for i in range(per)]
+        out += ls
+    # the overflow sites that relied on rustc's checks
+    for c in (MAXC, -MAXC, MAXC - 1, MAXC // 2 + 1):
+        out.append(dd("add", 5, c, 0, c, 0)); out.append(dd("sub", 5, c, 0, -c, 0))
+        out.append(dd("add", 5, c, 0, 1, 1)); out.append(di("mul", "i32", 5, c, 0, 2)); out.append(id_("mul", "i64", 5, -3, c, 5))
+        out.append(un("round", 5, c, 0, -3)); out.append(un("neg", 5, c, 0)); out.append(un("abs", 5, -abs(c), 0))
+        out.append(di("add", "i128", 5, c, 2, MAXC // 5)); out.append(id_("sub", "i128", 5, MAXC // 5, c, 2))
+        out.append(un("floor", 5, -abs(c), 18)); out.append(un("ceil", 5, abs(c), 18))
+    return out
+
+
+
+def gen_C18(rng, n):
+    """literal source texts for Dec!(..): returns protocol lines str.macro 5 <hex of the literal>"""
+    L = ["0", "1", "1.5", "-1.5", "+1.5", "1.", "1_000", "0x10", "0b1", "0o7", "1e5", "1E5", "1e+5", "1e-5", "1.5e-3", "1e38", "-1E38", "0.1e39", "0.01e+40",
+         "10e37", "17e37", "18e37", "1e39", "0e39", "0.0e40", "0e-5", "0.00", "-0.000", "0.0E-3", "1e-18", "1e-19", "0.000000000000000001",
+         "0.0000000000000000001", "0.0000000000000000001e1", "170141183460469231731687303715884105727", "170141183460469231731687303715884105728",
+         "-170141183460469231731687303715884105727", "-170141183460469231731687303715884105728", "340282366920938463463374607431768211456",
+         "440282366920938463463374607431768211456", "1e001", "1e00", "1e01", "12345678.12345678", "123456789012345678.90123", "0.5", "00.5", "007",
+         "1_0.5_0", "1e1_0", "99999999999999999999999999999999999999", "1.000000000000000000", "1.0000000000000000000", "1.0000000000000000000e1"]
+    for e in range(-40, 41):
+        L.append("1e%d" % e); L.append("25e%d" % e); L.append("0.5e%d" % e); L.append("-123.456E%d" % e)
+    for nd in range(1, 41):
+        d = "".join(rng.choice("0123456789") for _ in range(nd))
+        L.append(rng.choice("123456789") + d[1:])
+        L.append("0." + d)
+        L.append(d[: nd // 2 + 1].lstrip("0") + "0." + d[nd // 2:] if True else d)
+    while len(L) < n:
+        sg = rng.choice(("", "", "-", "+"))
+        ni = rng.randrange(1, 41) if rng.randrange(3) else rng.randrange(1, 8)
+        ip = rng.choice("123456789") + "".join(rng.choice("0123456789") for _ in range(ni - 1))
+        if rng.randrange(5) == 0:
+            ip = "0"
+        t = sg + ip
+        if rng.randrange(2):
+            t += "." + "".join(rng.choice("0123456789") for _ in range(rng.randrange(0, 41) if rng.randrange(3) == 0 else rng.randrange(0, 20)))
+        if rng.randrange(2):
+            t += rng.choice("eE") + rng.choice(("", "+", "-")) + str(rng.randrange(0, 41))
+        L.append(t)
+    seen = set()
+    out = []
+    for t in L:
+        if t not in seen:
+            seen.add(t)
+            out.append("str.macro 5 %s" % shex(t))
+    return out
+
+
 GENS = {
     "C01": gen_C01, "C02": gen_C02, "C03": gen_C03, "C04": gen_C04, "C05": gen_C05,
     "C08": gen_C08, "C10": gen_C10, "C14": gen_C14, "C15": gen_C15, "C16": gen_C16,
+    "C06": gen_C06, "C07": gen_C07, "C09": gen_C09, "C11": gen_C11, "C12": gen_C12, "C13": gen_C13,
+    "C17": gen_C17, "C18": gen_C18, "C19": gen_C19, "C20": gen_C20,
 }
 
 if __name__ == "__main__":
